@@ -1,8 +1,10 @@
 import Driver.Store
+import Driver.Time
 
 def main (args : List String) : IO UInt32 := do
   match args with
   | ["store"] => StoreDrv.main; return 0
+  | ["time"] => TimeDrv.main; return 0
   | _ =>
     IO.eprintln "usage: driver <family>   (lines on stdin)"
     return 2
